@@ -1,5 +1,10 @@
-"""Translator plugin (C06): NETWORKS prefix tables from btclib/network.py (as loaded at import)."""
-from btclib import network
+"""Translator plugin (C06): NETWORKS prefix tables from btclib/network.py (as loaded at import), and the
+field choices of btclib/slip132.py (which Network field each builder / the address dispatch reads), off the AST."""
+import ast
+import inspect
+import re
+
+from btclib import network, slip132
 
 NS = "Net"
 
@@ -52,5 +57,48 @@ def constants():
     t += "def SLIP132 : List (List Nat × Nat × Bool × Bool) := [\n"
     for i, (r, kind) in enumerate(srows):
         t += f"  {r}{',' if i < len(srows) - 1 else ''}  -- {kind}\n"
-    t += "  ]\n"
+    t += "  ]\n\n"
+    t += _slip132_rows()
+    return t
+
+
+def _field(name):
+    """Network field name -> (private list?, index into the xprv / xpub list of a generated Network row)."""
+    if name not in _XKEYS:
+        raise ValueError(f"slip132.py reads Network.{name}, which is not an extended-key version field")
+    kind = "p2pkh" if name.startswith("bip32_") else name[len("slip132_"):-4]
+    return f"({'true' if name.endswith('prv') else 'false'}, {_KINDS.index(kind)})"
+
+
+def _slip132_rows():
+    t = "/-- order of the `xprv` / `xpub` lists of a Network row (script type of each position) -/\n"
+    t += "def XKEY_KINDS : List String := [" + ", ".join(f'"{k}"' for k in _KINDS) + "]\n\n"
+    rows = []
+    for fn in ("p2pkh_xkey", "p2wpkh_xkey", "p2wpkh_p2sh_xkey"):
+        src = ast.unparse(ast.parse(inspect.getsource(getattr(slip132, fn))))
+        m = re.search(r"version = network\.(\w+) if xkey\.is_private else network\.(\w+)\n", src)
+        if not m or "xkey, network = _helper_checks(xkey, check_root_xkey)" not in src \
+                or "return derive(xkey, der_path, version)" not in src:
+            raise ValueError(f"slip132.{fn}: not of the shape `version = network.A if xkey.is_private else network.B`")
+        rows.append(f'("{fn}", {_field(m.group(1))}, {_field(m.group(2))})')
+    hsrc = ast.unparse(ast.parse(inspect.getsource(slip132._helper_checks)))
+    if "network = NETWORKS[network_from_xkeyversion(xkey.version)]" not in hsrc:
+        raise ValueError("slip132._helper_checks: network not taken from network_from_xkeyversion(xkey.version)")
+    t += "/-- `slip132.p2pkh_xkey / p2wpkh_xkey / p2wpkh_p2sh_xkey`: (function, field read for a PRIVATE parent, field\n"
+    t += "    read for a PUBLIC parent); a field is (private list?, position in it); the network is\n"
+    t += "    `NETWORKS[network_from_xkeyversion(xkey.version)]` -/\n"
+    t += "def SLIP132_BUILDERS : List (String × (Bool × Nat) × (Bool × Nat)) := [\n  " + ",\n  ".join(rows) + "]\n\n"
+    tree = ast.parse(inspect.getsource(slip132.address_from_xpub))
+    lists = {}
+    for node in ast.walk(tree):
+        if isinstance(node, ast.AnnAssign) and isinstance(node.target, ast.Name) and isinstance(node.value, ast.List):
+            lists[node.target.id] = [ast.unparse(e) for e in node.value.elts]
+    src = ast.unparse(tree)
+    if set(lists) != {"version_list", "function_list"} or len(lists["version_list"]) != len(lists["function_list"]) \
+            or "for version, function in zip(version_list, function_list, strict=True):" not in src \
+            or "if (network := network_from_key_value(version, xpub.version)):\n            return function(xpub, network)" not in src:
+        raise ValueError("slip132.address_from_xpub: dispatch loop not of the expected shape")
+    arows = [f'({_field(ast.literal_eval(v))}, "{f}")' for v, f in zip(lists["version_list"], lists["function_list"])]
+    t += "/-- `slip132.address_from_xpub`: (field the version is looked up in, address function), in loop order -/\n"
+    t += "def SLIP132_ADDRESS : List ((Bool × Nat) × String) := [" + ", ".join(arows) + "]\n"
     return t
